@@ -411,3 +411,25 @@ def _fold(e):
       return None
     return _fold_op(type(e.op).__name__, l, r)
   return None
+
+
+def unguarded_exit(cx, fn, sources, barrier, unroll=1, follow_exceptions=False, max_paths=3000):
+  """Path-sensitive must-pass query: (source node, Hit) for a feasible path of ``fn`` that runs a node of ``sources`` and then
+  reaches the normal exit without running a node of ``barrier`` afterwards; None when every such path passes the barrier;
+  'truncated' when the function has too many paths to decide this way (the caller falls back to plain reachability).
+  Feasible = not contradicted by the constants / not-None facts / repeated pure tests on the path (static_truth)."""
+  px = PathExec(cx, fn, unroll=unroll, max_paths=max_paths, follow_exceptions=follow_exceptions)
+  g = px.g
+  sources, barrier = set(sources), set(barrier)
+  for hit in px.run({g.exit}):
+    last_src = None
+    for n in hit.trail:
+      if n in barrier:
+        last_src = None
+      elif n in sources:
+        last_src = n
+    if last_src is not None:
+      return last_src, hit
+  if px.truncated:
+    return 'truncated'
+  return None
